@@ -26,16 +26,16 @@ pub fn user_trees(d: usize) -> Vec<TSpec> {
             TSpec::Dec(r1(&[1.0], 2.0), vec![None, Some(TSpec::Dec(r1(&[1.0], 0.0), vec![Some(TSpec::Leaf(r1(&[1.0], 0.0))), Some(TSpec::Leaf(r1(&[-1.0], 0.0)))]))]),
             // partial: defined only for y > 0 (the only child hangs on label 0)
             TSpec::Dec(r1(&[1.0], 0.0), vec![Some(TSpec::Leaf(r1(&[1.0], 1.0))), None]),
-            // y <= 0 ? (y >= -1 ? y : -1) : 3
+            // y <= 0 ? (3y >= -1 ? y : -1) : 3   (a row that is not of unit length and does not scale exactly in f64)
             TSpec::Dec(
                 r1(&[1.0], 0.0),
-                vec![Some(TSpec::Leaf(r1(&[0.0], 3.0))), Some(TSpec::Dec(r1(&[-1.0], 1.0), vec![Some(TSpec::Leaf(r1(&[0.0], -1.0))), Some(TSpec::Leaf(r1(&[1.0], 0.0)))]))],
+                vec![Some(TSpec::Leaf(r1(&[0.0], 3.0))), Some(TSpec::Dec(r1(&[-3.0], 1.0), vec![Some(TSpec::Leaf(r1(&[0.0], -1.0))), Some(TSpec::Leaf(r1(&[1.0], 0.0)))]))],
             ),
         ]
     } else {
         vec![
             TSpec::Dec(r1(&[1.0, -1.0], 0.0), vec![None, Some(TSpec::Leaf(Aff::identity(2)))]),
-            TSpec::Dec(r1(&[1.0, 0.0], 1.0), vec![Some(TSpec::Leaf(Aff::identity(2))), None]),
+            TSpec::Dec(r1(&[1.0, 2.0], 1.0), vec![Some(TSpec::Leaf(Aff::identity(2))), None]),
             TSpec::Dec(r1(&[0.0, 1.0], 2.0), vec![None, Some(TSpec::Dec(r1(&[1.0, 0.0], 0.0), vec![Some(TSpec::Leaf(Aff::identity(2))), Some(TSpec::Leaf(Aff::new(vec![vec![-1.0, 0.0], vec![0.0, 1.0]], vec![0.0, 0.0])))]))]),
             TSpec::Dec(
                 r1(&[1.0, 0.0], 0.0),
